@@ -468,3 +468,7 @@ def run(facts, rep, tier):
     rep.rule("C20-R8", "The rename patch graph is a forest too: Patch::build_key is entered once per affected note - the affected keys are made unique as a set (`unique()`, a set, or "
              "`sorted()` before `dedup()`), not by dropping adjacent repeats of an unsorted sequence.")
     rule_r8(facts, rep)
+    rep.rule("C20-R9", "= C01-R11: every node the builder creates stays reachable from its note's root - a list that is the first block of a list item gets its own list node and the "
+             "cursor is restored after its items (otherwise the next block overwrites a child link and the nodes behind it stay live but unreachable).")
+    from . import c01 as _c01
+    _c01.rule_r11(facts, rep, "C20-R9")
